@@ -340,13 +340,21 @@ func runParent(e *Engine, tier string, seed uint64, par int) int {
 	if len(fresh) > 0 {
 		os.MkdirAll(replayDir, 0o755)
 	}
+	if len(total.Violations) > 0 {
+		all := total.Violations
+		if len(all) > 3000 {
+			all = all[:3000]
+		}
+		ab, _ := json.Marshal(all)
+		os.WriteFile(filepath.Join(VerifDir, ".work", e.ID+".last_violations.json"), ab, 0o644)
+	}
 	seenSig := map[string]int{}
-	for _, v := range fresh {
+	for vi, v := range fresh {
 		seenSig[v.Sig]++
 		if seenSig[v.Sig] > 5 {
 			continue
 		}
-		p := filepath.Join(replayDir, fmt.Sprintf("%s-s%d-c%d.json", tier, seed, v.Case))
+		p := filepath.Join(replayDir, fmt.Sprintf("%s-s%d-c%d-%d.json", tier, seed, v.Case, vi))
 		rb, _ := json.MarshalIndent(map[string]interface{}{"property": e.ID, "seed": seed, "case": v.Case, "tier": tier, "sig": v.Sig, "detail": v.Detail}, "", " ")
 		os.WriteFile(p, rb, 0o644)
 		fmt.Printf("VIOLATION property=%s replay=%s\n", e.ID, p)
